@@ -29,24 +29,50 @@ ArrayEntries == {"elliptic_block", "sl2_iso", "point_klein", "point_projective",
                  \* array-valued angles: the point at [i][j] is the ideal point of angle theta[i][j]
                  "ideal_from_angle_grid", "ideal_from_angle_vector",
                  \* a point given by its coordinates in each of the other models (unit and array of points)
-                 "point_poincare", "point_halfspace", "point_hyperboloid", "points_halfspace", "points_poincare"}
+                 "point_poincare", "point_halfspace", "point_hyperboloid", "points_halfspace", "points_poincare",
+                 \* a hyperplane given by a normal vector (as supplied; as supplied times 3) and a geodesic given by two
+                 \* ideal points, each with the reflection across it: an isometry, an involution, the same for every
+                 \* packaging of the coordinates
+                 "hyperplane_reflection", "hyperplane_reflection_scaled", "geodesic_reflection"}
 IntEntries == {"coxeter_matrix", "triangle_group", "coxeter_diagram"}          \* Coxeter labels
 
-ScalarPacks == {"py_float", "py_int", "np_float64", "np_float32", "np_int64", "zero_d_float", "zero_d_int"}
-ArrayPacks == {"nested_list_float", "nested_list_int", "ndarray_float64", "ndarray_float32", "ndarray_int64", "tuple_float"}
-IntPacks == {"py_int", "np_int64", "np_int32", "ndarray_int64", "nested_list_int", "ndarray_float64", "nested_list_float"}
+\* integer types narrower than the platform integer and unsigned ones are packagings like any other (int32 is the
+\* default integer of many file formats and of NumPy 1.x on Windows)
+ScalarPacks == {"py_float", "py_int", "np_float64", "np_float32", "np_int64", "zero_d_float", "zero_d_int",
+                "np_int32", "np_int16", "np_uint8", "zero_d_int32", "zero_d_int16", "zero_d_uint8"}
+ArrayPacks == {"nested_list_float", "nested_list_int", "ndarray_float64", "ndarray_float32", "ndarray_int64", "tuple_float",
+               "ndarray_int32", "ndarray_int16", "ndarray_uint8"}
+IntPacks == {"py_int", "np_int64", "np_int32", "np_int16", "ndarray_int64", "ndarray_int32", "nested_list_int", "ndarray_float64",
+             "nested_list_float"}
 
 \* values: "frac" = a non-integral real, "int" = an integral real, "zero"
 Vals == {"frac", "int", "zero"}
-IntegerPack(p) == p \in {"py_int", "np_int64", "np_int32", "zero_d_int", "nested_list_int", "ndarray_int64"}
+IntegerPack(p) == p \in {"py_int", "np_int64", "np_int32", "np_int16", "np_uint8", "zero_d_int", "zero_d_int32", "zero_d_int16",
+                         "zero_d_uint8", "nested_list_int", "ndarray_int64", "ndarray_int32", "ndarray_int16", "ndarray_uint8"}
+UnsignedPack(p) == p \in {"np_uint8", "zero_d_uint8", "ndarray_uint8"}
+\* entry points whose integral test value has a negative entry: an unsigned packaging cannot carry it
+SignedValueEntries == {"elliptic_block", "polygon", "polygon_from_parts", "hyperplane_reflection_scaled", "geodesic_reflection"}
 
 InDomain(e, p, v) ==
   \/ (e \in ScalarEntries /\ p \in ScalarPacks /\ (IntegerPack(p) => v # "frac")
         \* a polygon needs a positive angle / radius, a loxodromic a non-zero parameter
         /\ (e \in {"regular_polygon_angle", "regular_polygon_radius", "standard_loxodromic", "regular_polygon_radius_fn",
                    "polygon_interior_angle_fn"} => v # "zero"))
-  \/ (e \in ArrayEntries /\ p \in ArrayPacks /\ (IntegerPack(p) => v # "frac") /\ v # "zero")
+  \/ (e \in ArrayEntries /\ p \in ArrayPacks /\ (IntegerPack(p) => v # "frac") /\ v # "zero"
+        /\ (UnsignedPack(p) => e \notin SignedValueEntries))
   \/ (e \in IntEntries /\ p \in IntPacks /\ v = "int")
+
+\* "Numerically the same" is read up to the precision of the floating-point type NumPy associates with the number type
+\* the caller chose: NumPy evaluates elementary functions of float32 and int16 numbers in float32 and of (u)int8 numbers in
+\* float16 (its documented promotion), every other packaging in float64.  The harness compares values with the tolerance
+\* of that precision (Tolerance); truncation of a fractional entry (errors of order 0.1 - 1) exceeds every one of them.
+Precision(p) == IF p \in {"np_float32", "ndarray_float32", "np_int16", "zero_d_int16", "ndarray_int16"} THEN "float32"
+                ELSE IF p \in {"np_uint8", "zero_d_uint8", "ndarray_uint8"} THEN "float16"
+                ELSE "float64"
+\* tolerance as <<mantissa, negative decimal exponent>>: m * 10^-k
+Tolerance(p) == CASE Precision(p) = "float64" -> <<1, 9>>
+                  [] Precision(p) = "float32" -> <<2, 6>>
+                  [] Precision(p) = "float16" -> <<2, 3>>
 
 \* what the result must be
 \* "numeric": floating-point (or complex, or exact integer) data that is numerically equal to the canonical result -
@@ -68,10 +94,18 @@ Init == /\ entry \in ScalarEntries \cup ArrayEntries \cup IntEntries
 Next == UNCHANGED <<entry, pack, val>>
 
 NeverObject == ResultKind(entry, pack, val) = "numeric"
+\* the canonical packagings are full precision; no tolerance is looser than the coarsest floating-point type
+CanonicalFullPrecision == Precision(Canonical(entry)) = "float64"
+ToleranceBounded == Tolerance(pack)[2] >= 3
 CanonicalInDomain == \E v \in Vals : InDomain(entry, Canonical(entry), v)
 \* every entry point is exercised with a Python scalar / nested list AND with NumPy packaging
 Coverage == \A e \in ScalarEntries : InDomain(e, "py_float", "frac") /\ InDomain(e, "np_float64", "frac") /\ InDomain(e, "zero_d_float", "frac")
+\* every entry point taking real parameters is exercised with a narrow integer packaging of an integral value
+NarrowIntCoverage == /\ \A e \in ScalarEntries : InDomain(e, "np_int32", "int") /\ InDomain(e, "zero_d_int16", "int")
+                     /\ \A e \in ArrayEntries : InDomain(e, "ndarray_int32", "int") /\ InDomain(e, "ndarray_int16", "int")
+                     /\ \A e \in ArrayEntries \ SignedValueEntries : InDomain(e, "ndarray_uint8", "int")
 
 EmitCase == PrintT("CASE " \o ToJson([entry |-> entry, pack |-> pack, val |-> val, kind |-> ResultKind(entry, pack, val),
-                                        canonical |-> Canonical(entry), followups |-> Followups(entry)]))
+                                        canonical |-> Canonical(entry), followups |-> Followups(entry),
+                                        precision |-> Precision(pack), tol |-> Tolerance(pack)]))
 =============================================================================
